@@ -12,6 +12,12 @@
 //          i <key> <id>        rbtree::insert(node id with key)
 //          b <beforeid|-> <id> rbtree_order::insert(before, node id)
 //          r <id>              remove(node id)
+//          L <id> / R <id>     (cfg raw only) the PRIVATE helpers rotateLeft(node) / rotateRight(node), called directly
+//                              (-fno-access-control) when their own assertion holds (node is the right / left child of
+//                              its parent);  U = undo the last applied rotation by the inverse one.  `cfg raw` = rbtree with the comparator, state line after every op, NO oracle
+//                              (a rotation without recolouring leaves a tree that is not red-black; later operations on it
+//                              may legitimately stop in an FRG_ASSERT, printed as `assert`): these scripts are compared
+//                              with the pointer-level model only (Rb/RbPtr.v, `rb_m ptr`).
 // In `hash` mode the state line is replaced by its 64-bit FNV-1a digest (large trees).
 #include <csignal>
 #include <unistd.h>
@@ -162,11 +168,12 @@ static void check_tree(TR &tr, Node *pool, int P, const std::vector<int> &ref, b
 }
 
 template<class TR>
-static void run_tree(const vh::Lines &ls, int P, bool hashmode, bool cmp, int every) {
+static void run_tree(const vh::Lines &ls, int P, bool hashmode, bool cmp, int every, bool raw = false) {
 	std::unique_ptr<Node[]> pool(new Node[P]);
 	for(int i = 0; i < P; i++) pool[i].id = i;
 	std::vector<int> ref;     // reference: ids in the order the property prescribes
 	uint64_t seq = 0;
+	int undo_node = -1; bool undo_left = false;
 	{
 		TR tr;
 		for(size_t li = 1; li < ls.size(); li++) {
@@ -197,7 +204,23 @@ static void run_tree(const vh::Lines &ls, int P, bool hashmode, bool cmp, int ev
 				tr.remove(&pool[id]);
 				pool[id].member = false;
 				ref.erase(std::find(ref.begin(), ref.end(), id));
+			} else if(raw && (o == "L" || o == "R") && t.size() == 2) {
+				int id = atoi(t[1].c_str());
+				if(id < 0 || id >= P || !pool[id].member) { printf("skip\n"); continue; }
+				Node *nd = &pool[id], *u = TR::get_parent(nd);
+				if(!u || (o == "L" ? TR::get_right(u) : TR::get_left(u)) != nd) { printf("skip\n"); continue; }
+				if(o == "L") tr.rotateLeft(nd); else tr.rotateRight(nd);
+				undo_node = u->id; undo_left = (o == "L");
+			} else if(raw && o == "U" && t.size() == 1) {
+				// undo the last applied rotation: after rotateLeft(n) its old parent u is n's left child, rotateRight(u) restores
+				// every link (and vice versa); colours were not touched
+				if(undo_node < 0 || !pool[undo_node].member) { printf("skip\n"); continue; }
+				Node *nd = &pool[undo_node], *u = TR::get_parent(nd);
+				if(!u || (undo_left ? TR::get_left(u) : TR::get_right(u)) != nd) { printf("skip\n"); continue; }
+				if(undo_left) tr.rotateRight(nd); else tr.rotateLeft(nd);
+				undo_node = -1;
 			} else { printf("skip\n"); continue; }
+			if(raw) { dump(tr, pool.get(), P, hashmode); continue; }
 			if(every <= 1 || li % (size_t)every == 0 || li + 1 == ls.size()) {
 				dump(tr, pool.get(), P, hashmode);
 				check_tree(tr, pool.get(), P, ref, cmp);
@@ -228,6 +251,12 @@ static void body(const vh::Lines &ls) {
 	int P = atoi(t[2].c_str());
 	if(P < 1 || P > 200000) { printf("badcfg\n"); return; }
 	bool hashmode = t[3] == "hash";
+	if(t[1] == "raw") {
+		// no oracle: the script may drive the tree out of the red-black invariant on purpose
+		try { run_tree<CmpTree>(ls, P, hashmode, true, 1, true); }
+		catch(vh::AssertStop &) { printf("assert\n"); }
+		return;
+	}
 	try {
 		if(t[1] == "ord") run_tree<OrdTree>(ls, P, hashmode, false, every);
 		else run_tree<CmpTree>(ls, P, hashmode, true, every);
